@@ -208,6 +208,8 @@ def subscript(I, o, k):
             I.raise_exc("KeyError", c)
         raise Unsupported("symbolic key into literal dict")
     if isinstance(o, VStr):
+        if not is_num(k) or isinstance(k, VReal):
+            I.raise_exc("TypeError", "string indices must be integers")
         idx = to_int(k)
         n = z3.Length(o.e)
         idx2 = z3.If(idx < 0, idx + n, idx)
@@ -493,6 +495,8 @@ def get_attribute(I, o, name, default=_NOCONST):
 def call(I, f, args, kwargs, node=None):
     if not I.spec:
         f = I.force(f)
+    elif isinstance(f, VUndef):
+        return VUndef()
     if isinstance(f, VFunc):
         if f.kind == "ast" and getattr(f, "qual", None) in I.ver.reg.opaques and \
                 not (I.ver.cur is not None and I.ver.cur.key == f.qual and not I.fn_stack[1:]):
@@ -520,6 +524,8 @@ def call(I, f, args, kwargs, node=None):
                     I.fn_stack.pop()
             return I.call_ast(f, args, kwargs)
         if f.kind == "builtin":
+            if I.spec and any(isinstance(a, VUndef) for a in args):
+                return VUndef()
             return f.impl(I, args, kwargs)
         if f.kind == "bmethod":
             return call_bmethod(I, f.selfv, f.name, args, kwargs)
@@ -886,7 +892,6 @@ def bi_isinstance(I, args, kw):
     names = [x.name for x in tv.items] if isinstance(tv, VTuple) else [tv.name]
     if isinstance(args[0], VDyn):
         # symbolic answer (no 7-way fork on the runtime tag)
-        D.axioms(I)
         return VBool(D.isinstance_cond(args[0], names))
     v = I.force(args[0])
     return VBool(any(_isinst(I, v, nm) for nm in names))
@@ -1071,6 +1076,8 @@ def bi_dict(I, args, kw):
         if hasattr(v, "aggs"):
             m.aggs = dict(v.aggs)
         return m
+    if isinstance(v, (VInt, VReal, VBool, VNone)):
+        I.raise_exc("TypeError", "object is not iterable")
     raise Unsupported("dict() of %s" % type(v).__name__)
 
 
@@ -1726,7 +1733,13 @@ def comprehension(I, n, env):
                        patterns=[z3.MultiPattern(sel(j), sel(j2))]))
     hit_pats = [rank(i)]
     if base.arr is not None:
-        hit_pats.append(z3.Select(base.arr, i))
+        if not _has_ite(base.arr):
+            hit_pats.append(z3.Select(base.arr, i))
+        else:
+            # the source array is an if-then-else term (not allowed inside a trigger): name it
+            named = p.fresh("cp_src", base.arr.sort())
+            p.assume(named == base.arr)
+            hit_pats.append(z3.Select(named, i))
     p.assume(z3.ForAll([i], z3.Implies(z3.And(0 <= i, i < base.n, cond),
                                       z3.And(0 <= rank(i), rank(i) < res.n, sel(rank(i)) == i,
                                              z3.Select(res.arr, rank(i)) == elt_e)),
@@ -1752,6 +1765,23 @@ def _check_comp_body(I, n, gen, env, base, mk_item):
         if not I.test(I.ev(c, e2)):
             return
     I.ev(n.elt, e2)
+
+
+def _has_ite(e):
+    seen = set()
+    st = [e]
+    while st:
+        x = st.pop()
+        if x.get_id() in seen:
+            continue
+        seen.add(x.get_id())
+        if z3.is_app(x):
+            if x.decl().kind() == z3.Z3_OP_ITE:
+                return True
+            st.extend(x.children())
+        else:
+            return True   # quantifier / lambda / bound variable: not usable inside a trigger either
+    return False
 
 
 def to_seq_items(I, src):
